@@ -8,7 +8,8 @@ Rules implemented (HED specification, "tag forms" and "extensions"; property C03
   R1  A tag is written as slash-separated terms.  The first term must be the name of a schema node (any node,
       anywhere in the tree: "every partial path ending in a node is a valid spelling"); each following term is
       consumed while it names a child of the node reached so far.  Resolution is left to right and stops at the
-      first term that is not such a child.  Names compare case-insensitively.
+      first term that is not such a child.  Names compare case-insensitively (here: equal after str.lower();
+      the harnesses using this module claim printable ASCII only, where lower() and casefold() coincide).
   R2  "#" is the value placeholder, never a node name that a term can match.
   R3  What is left (from the slash in front of the first unconsumed term to the end) is the remainder and is kept
       exactly as written.
